@@ -997,7 +997,10 @@ class Agent(dbus.service.Object):
             if (cmsg_level, cmsg_type) == (socket.IPPROTO_IP, socket.IP_TOS):
                 self.__logger.info('With TOS field %02x', cmsg_data[0])
         self._plain_sock[conv.key] = sock
-        self._recv_datagram(sock, data, conv, ip_tos)
+        try:
+            self._recv_datagram(sock, data, conv, ip_tos)
+        except Exception as err:
+            self.__logger.error('Failed handling datagram from %s: %s', conv, err)
         return True
 
     def _starttls(self, sock, conv: Conversation, server_side: bool):
@@ -1105,7 +1108,10 @@ class Agent(dbus.service.Object):
             elif major_type == 5:
                 # Map type
                 extmap = cbor2.load(buf)
-                self._recv_ext_map(sock, extmap, conv, timestamp)
+                try:
+                    self._recv_ext_map(sock, extmap, conv, timestamp)
+                except Exception as err:
+                    self.__logger.error('Ignoring failed extension map: %s', err)
 
             else:
                 self.__logger.error('Unknown message type with first octet 0x%02x, ignoring remainder of packet', first_octet)
